@@ -3,6 +3,7 @@
 package logqlengine
 
 import (
+	"math"
 	"time"
 
 	"go.opentelemetry.io/collector/pdata/pcommon"
@@ -94,10 +95,10 @@ func VerifHarness_C01_Comparators() {
 			s string
 			f float64
 			ok bool
-		}{{"5", 5, true}, {"-2.5", -2.5, true}, {"1e3", 1000, true}, {"abc", 0, false}, {"", 0, false}}
+		}{{"5", 5, true}, {"-2.5", -2.5, true}, {"1e3", 1000, true}, {"abc", 0, false}, {"", 0, false},
+			{"NaN", math.NaN(), true}, {"+Inf", math.Inf(1), true}, {"-Inf", math.Inf(-1), true}}
 		v := vals[vsymChoice("value", len(vals))]
-		th := vsymFloat64("threshold")
-		vsymAssume(th == th)
+		th := vsymFloat64("threshold") // any float64, NaN and the infinities included: IEEE comparison
 		if has {
 			set.Set("v", pcommon.NewValueStr(v.s))
 		}
